@@ -1,14 +1,16 @@
 import Texel.Proofs.SnapF
-import Texel.Proofs.RingSize
+import Texel.Proofs.RingShape
 /-! # C05 — returned rings are well formed, correctly oriented, collapse policy respected
 
 Proved here on the functional model `snapPolygonF` (all polygons, valid or not, all configurations):
 * a tile matrix at which the whole polygon collapses is *absent* from the result, never mapped to an empty list;
 * with keep-points-and-lines, every tile matrix present without the option carries the same polygons followed by
   single-ring polygons (the collapsed parts), and nothing else changes.
-* without the option every ring of every returned polygon has at least three vertices; with it the returned list is such polygons
-  followed by single rings of at most two vertices (`C05_at_least_three`, `C05_shape`).
-The remaining ring-level clauses (orientation, no repeated vertex) are evaluated by the exact oracle `oracleC05`
+* every assembled polygon is its shell followed by its holes, each of at least three vertices, the shell counter-clockwise (signed area
+  ≥ 0), the holes clockwise (≤ 0), the opposite under the reverse flag; collapsed parts are single rings of at most two vertices and
+  absent without the option (`C05_shape`, `C05_at_least_three`; the signed area is the model's `area2`, proved equal to the shoelace sum
+  and negated by reversal in `Proofs/Area.lean`).
+The remaining ring-level clauses (no closing duplicate, no equal neighbours, no vertex twice) are evaluated by the exact oracle `oracleC05`
 on every implementation answer and by the `snap`/`split` correspondence; their proofs need the inside of `splitRing`
 (see DESIGN §6 C05). Core-only proofs. -/
 namespace Texel.C05
@@ -91,19 +93,50 @@ theorem C05_keep_extends (g : Grid) (hot : Nat → Quad → Bool) (rev io : Bool
     simp only [Array.size_append]; omega
   rw [if_neg this]
 
-/-- **shape of a level**: assembled polygons whose rings all have at least three vertices, followed by the collapsed parts as single
-rings of at most two vertices (none of them without the keep option) -/
+/-- the orientation the caller asked for: counter-clockwise shells (non-negative signed area), clockwise holes; the opposite under the
+reverse-winding-order flag. Rings of zero area satisfy both (the property exempts them). -/
+def Oriented (reverse : Bool) (isShell : Bool) (r : Array P) : Prop :=
+  if reverse = isShell then area2 r ≤ 0 else 0 ≤ area2 r
+
+/-- **shape of a level** (`snapPolygonF`, every polygon, every configuration): the polygons of a tile matrix are assembled polygons followed
+by the collapsed parts; every assembled polygon is its shell followed by its holes, all of at least three vertices, the shell
+counter-clockwise and the holes clockwise — exactly the opposite under the reverse flag; the collapsed parts are single rings of at
+most two vertices, and there are none without keep-points-and-lines -/
 theorem C05_shape (g : Grid) (rings : List (List Pt)) (levels : List Nat) (cfg : Config)
     (res : List (Nat × Array Poly)) (h : snapPolygonF g rings levels cfg = .ok res) (l : Nat) (polys : Array Poly) (hm : (l, polys) ∈ res) :
     ∃ core : Array Poly, ∃ pls : Array (Array P), polys = core ++ pls.map (fun pl => #[pl]) ∧
-      (∀ pg ∈ core, ∀ r ∈ pg, 3 ≤ r.size) ∧ (∀ pl ∈ pls, pl.size ≤ 2) ∧ (cfg.keep = false → pls = #[]) := by
+      (∀ pg ∈ core, ∃ shell holes, pg.toList = shell :: holes ∧
+        3 ≤ shell.size ∧ Oriented cfg.reverse true shell ∧ ∀ h ∈ holes, 3 ≤ h.size ∧ Oriented cfg.reverse false h) ∧
+      (∀ pl ∈ pls, pl.size ≤ 2) ∧ (cfg.keep = false → pls = #[]) := by
   obtain ⟨addrs, _, _, hp⟩ := snapPolygonF_mem g rings levels cfg res h l polys hm
-  obtain ⟨core, pls, h1, h2, h3, acc, hacc, hpls⟩ := processLevel_size g (hotOf g addrs) cfg l rings polys hp
-  refine ⟨core, pls, h1, h2, h3, ?_⟩
-  intro hk
-  rw [hk] at hacc
-  rw [hpls]
-  exact C05_no_keep_no_appended g (hotOf g addrs) cfg.reverse l rings acc hacc
+  obtain ⟨core, acc, hacc, hpolys, hcore, hpls⟩ := processLevel_shape lawOriented g (hotOf g addrs) cfg l rings polys hp
+  refine ⟨if cfg.reverse then reversePolys core else core, acc.pls, hpolys, ?_, hpls, ?_⟩
+  · intro pg hpg
+    by_cases hrev : cfg.reverse = true
+    · rw [if_pos hrev] at hpg
+      unfold reversePolys at hpg
+      simp only [Array.mem_map] at hpg
+      obtain ⟨pg0, hpg0, rfl⟩ := hpg
+      obtain ⟨shell, holes, h1, h2, h3⟩ := hcore pg0 hpg0
+      refine ⟨shell.reverse, holes.map Array.reverse, by simp [h1], by simpa using h2.1, ?_, ?_⟩
+      · unfold Oriented; rw [if_pos hrev, area2_reverse]; have := h2.2; omega
+      · intro hh hhm
+        simp only [List.mem_map] at hhm
+        obtain ⟨h0, hh0, rfl⟩ := hhm
+        refine ⟨by simpa using (h3 h0 hh0).1, ?_⟩
+        unfold Oriented
+        rw [if_neg (by simp [hrev]), area2_reverse]; have := (h3 h0 hh0).2; omega
+    · rw [if_neg hrev] at hpg
+      have hrev' : cfg.reverse = false := by simpa using hrev
+      obtain ⟨shell, holes, h1, h2, h3⟩ := hcore pg hpg
+      refine ⟨shell, holes, h1, h2.1, ?_, ?_⟩
+      · unfold Oriented; rw [if_neg (by simp [hrev'])]; exact h2.2
+      · intro hh hhm
+        refine ⟨(h3 hh hhm).1, ?_⟩
+        unfold Oriented; rw [if_pos (by simp [hrev'])]; exact (h3 hh hhm).2
+  · intro hk
+    rw [hk] at hacc
+    exact C05_no_keep_no_appended g (hotOf g addrs) cfg.reverse l rings acc hacc
 
 /-- **without keep-points-and-lines every returned ring has at least three vertices** (any polygon, any levels, either winding order) -/
 theorem C05_at_least_three (g : Grid) (rings : List (List Pt)) (levels : List Nat) (cfg : Config) (hk : cfg.keep = false)
@@ -113,6 +146,16 @@ theorem C05_at_least_three (g : Grid) (rings : List (List Pt)) (levels : List Na
   rw [h4 hk] at h1
   simp only [Array.map_empty, Array.append_empty] at h1
   subst h1
-  exact h2
+  intro pg hpg r hr
+  obtain ⟨shell, holes, e, hs, _, hh⟩ := h2 pg hpg
+  have : r ∈ pg.toList := by simpa using hr
+  rw [e] at this
+  rcases List.mem_cons.1 this with h5 | h5
+  · subst h5; exact hs
+  · exact (hh r h5).1
+
+-- non-vacuity: an L-shaped polygon with a hole on a 64x64 grid at level 4: one polygon, shell with positive and hole with negative area
+#guard (snapPolygonF ⟨0, 0, 4, 6⟩ [[⟨8, 8⟩, ⟨200, 8⟩, ⟨200, 200⟩, ⟨8, 200⟩], [⟨60, 60⟩, ⟨60, 140⟩, ⟨140, 140⟩, ⟨140, 60⟩]] [4] ⟨false, false, false⟩).toOption.map
+    (fun r => r.map fun e => e.2.toList.map fun pg => pg.toList.map area2) == some [[[288, -50]]]
 
 end Texel.C05
